@@ -115,7 +115,9 @@ CHECKS["C07"] = (
     "output is consistent (raw slices tile the source with matching text, rendered slices tile the rendered SQL, source slices in "
     "bounds, literal slices map to identical text). Tied to PlaceholderTemplater.process for every KNOWN_STYLES key (read from the "
     "code each run). The same Lean predicate is evaluated on every variant produced by the jinja and python templaters "
-    "(partial: those templaters are not modelled; alternate-variant source-slice drift is a listed known finding).",
+    "(partial: those templaters are not modelled). JinjaTemplater._rectify_templated_slices is transcribed and corresponded exactly on random "
+    "delta maps and slice lists: it is proved to restore contiguity for loop-free variants, and a kernel-checked instance shows how a loop "
+    "(a tag visited twice) leaves later slices off by the unapplied delta - the alternate-variant drift that is a listed known finding.",
     "Lean 4 proof (loop invariant over the match list) + differential correspondence + Lean-evaluated consistency predicate",
     "Lean kernel; standard axioms; regex.finditer spans are a checked contract; Jinja/str.format external",
     "DESIGN.md §6 C07",
@@ -321,7 +323,8 @@ CHECKS["C13"] = (
 )
 CHECKS["C14"] = (
     "Lean 4 theorems: an edit whose removed and inserted tokens have the same code projection and comments preserves the file's; so does any sequence of "
-    "such edits (induction over the edit list). The Lean spec (code tokens unchanged in text and order, comment multiset preserved) is evaluated on the "
+    "such edits (induction over the edit list); tokens of whitespace/newline class are neutral. A translator lists every segment constructor and "
+    ".edit() call site in rules/layout and utils/reflow and the kernel re-checks that only WhitespaceSegment/NewlineSegment are constructed. The Lean spec (code tokens unchanged in text and order, comment multiset preserved) is evaluated on the "
     "original vs re-lexed fixed tokens over the fixed universe with the layout group and a non-default layout configuration. Partial: that each reflow "
     "edit is whitespace-only is what the sweep samples; clean-tree failures listed by input.",
     "Lean 4 proof (edit algebra) + Lean-evaluated spec on real fix runs over a fixed universe",
@@ -338,7 +341,8 @@ CHECKS["C15"] = (
 )
 CHECKS["C17"] = (
     "Lean 4 theorems over the fix-loop model: if the loop ends because no rule proposes anything (quiescent) a second run changes nothing; kernel-checked "
-    "witnesses show the two ways idempotence fails (loop limit reached while rules oscillate; main-phase rules re-triggered by post-phase edits). The real "
+    "witnesses show how a stable exit differs from quiescence (an oscillating pair stopped by the seen-before check) and record that post-phase rules run "
+    "in every main loop as the code stands (the trace correspondence corrected the model on this point). The real "
     "loop is traced and replayed through the model; the end-to-end statement (fix twice = fix once) is evaluated over the fixed universe x all/layout/"
     "alternative layout, including jinja templates. Partial; clean-tree failures listed by input.",
     "Lean 4 proof (loop model) + trace-replay correspondence + end-to-end sweep",
